@@ -53,7 +53,7 @@ def execute(beh, kind, mode, precision, frame, chain, seed, step=None):
     import scared
     rs = np.random.RandomState(seed)
     pp = pl.preprocesses()
-    a, mk = pl.build(kind, mode, precision, convergence_step=step, layout='CTF'[seed % 3])
+    a, mk = pl.build(kind, mode, precision, convergence_step=step, layout='CTF'[seed % 3], declared=(5 if seed % 4 == 1 else None))
     rec = pl.Recorder(a)
     sets = []
     id0 = 0
